@@ -75,8 +75,20 @@ def check_case(strings, with_null, job, registry):
     name = next(iter(ann))
     lits = find_literals(ann[name], [])
     P = plain_strings(registry, strings)
+    # "whenever, in addition, no string at that position had to be generalised to str": pseudo-typed strings of kinds
+    # that do not resolve to one type are generalised to str, which then absorbs the literals
+    kinds = []
+    for s_ in strings:
+        k = next((c for c in registry.types if conv.accepts(c, s_)), None)
+        if k is not None and k not in kinds:
+            kinds.append(k)
+    generalised = len(registry.resolve(*kinds)) > 1 if kinds else False
     limit = job["maxLit"]
     expect = bool(P) and all(len(s) < 20 for s in P) and len(P) <= 15 and len(P) < limit and job["fw"] != "attrs"
+    if expect and generalised:
+        if lits and list(typing.get_args(lits[0])) != P:
+            return {"kind": "literal-values-differ", "observed": {"expected": P, "evaluated": list(typing.get_args(lits[0]))}, "text": text}
+        return None
     if expect:
         if len(lits) != 1:
             return {"kind": "literal-missing", "observed": f"expected Literal{P!r}, annotation is {ann[name]!r}", "text": text}
